@@ -32,6 +32,24 @@ add("C02", "E1 mapspace", "model_checking", "bounded-exhaustive exploration of m
     "any difference is a violation. Exhaustive within the stated bounds.",
     "Trusted: rustc/std. No model involved. The domain filter for token strings and corpus files uses the implementation's own record iterator (itself checked by C05/C06).", "DESIGN.md §4 C02")
 
+add("C09", "E1 mapspace", "model_checking", "bounded-exhaustive exploration of mapping histories; every written file decoded by an independent decoder and compared with model-derived counts, orders and contents",
+    "For every mapping of the scopes (all histories up to depth 5, name tables up to 300 classes, string-length family crossing the 1/2/3-byte LEB128 boundaries, corpus) the real writer's bytes are decoded by a decoder "
+    "written only from the format documentation: magic/version/counts, strict class order, exact tiling of both member sections, member and by-params order, 8-byte alignment with zero padding, declared string-section length, "
+    "every referenced offset at a string start and valid UTF-8, sentinel only in optional roles; the library's self-test must accept the file.",
+    "Trusted: rustc/std; pgmc/src/dec.rs; the reference model for expected counts/orders. String uniqueness is not demanded.", "DESIGN.md §4 C09")
+add("C10", "E1 mapspace", "model_checking", "bounded-exhaustive exploration of (writer release, reader release) histories on two real builds linked into one binary, differential oracle",
+    "For every mapping of the scopes and both writers (vendored 5.5.0 snapshot, current tree) the file is parsed by both readers; a reader may reject only with WrongVersion, otherwise the complete query universe "
+    "must be answered identically by both readers. All four (writer, reader) pairs, every state.",
+    "Trusted: rustc/std; the vendored snapshot /verif/pinned as 'the pinned release'.", "DESIGN.md §4 C10")
+add("C11", "E4 bytefault", "fault_enumeration", "exhaustive enumeration of crash points (every strict prefix) and single-field header edits of every base file, real parser, layout-derived oracle",
+    "Every strict prefix of every base cache file (tens of thousands of files from exhaustive mapping scopes) and every single-field edit of the 24-byte header are parsed by the real parser; the expected verdict "
+    "(error kind, in precedence order) is computed from the documented layout by the independent decoder; an accepted prefix must answer the whole query universe like the full file.",
+    "Trusted: rustc/std; layout arithmetic in pgmc/src/dec.rs. Buffers are 8-aligned. Prefixes shorter than the header may be rejected with any error kind.", "DESIGN.md §4 C11")
+add("C12", "E4 bytefault", "fault_enumeration", "deviation-bounded exhaustive corruption of valid cache files (bound 1 on all base files, bound 2 on a few), real parser and full query universe on every accepted buffer",
+    "Every 32-bit field set to every boundary value, every single-bit flip, every string-section byte edit, every adjacent record swap/duplication of every base file (deviation bound 1), and all pairs of field edits on a few files "
+    "(bound 2); each buffer the parser accepts is queried with the full universe incl. lines 0, 2^32 and 2^64-1 with overflow checks compiled in; every returned string must lie inside the buffer or the query.",
+    "Trusted: rustc/std; overflow-checks/debug-assertions build profile; address-range check on returned slices. Debug/Display helpers and ProguardCache::test() are outside the property's list.", "DESIGN.md §4 C12")
+
 manifest = {
     "version": 1,
     "setup_cmd": "mkdir -p target && (cd pgmc && CARGO_NET_OFFLINE=true cargo build --release --offline) && (test ! -f shim/getrandom_shim.c || gcc -O2 -shared -fPIC -o shim/getrandom_shim.so shim/getrandom_shim.c)",
@@ -43,6 +61,8 @@ manifest = {
         "add_only": True,
     },
     "engines": [
+        {"name": "E4 bytefault", "path": "pgmc/src/props/e4.rs", "serves_properties": [i for i in C if C[i]["engine"].startswith("E4")],
+         "kind_free_text": "crash-point / corruption enumeration over cache files with an explicit deviation bound; real parser + queries on every faulted buffer"},
         {"name": "E1 mapspace", "path": "pgmc/src/e1.rs", "serves_properties": [i for i in C if C[i]["engine"].startswith("E1")],
          "kind_free_text": "stateless DFS over histories of mapping lines; real mapper/cache built in every state; full query universe per state"},
     ],
